@@ -577,6 +577,17 @@ func (p *parser) readDirUse() (du *DirectiveUse, err error) {
 	if du.Directive == nil {
 		return nil, parseError(p.line, p.col, "directive missing")
 	}
+	switch du.Directive.(type) {
+	case *Directive, *Ref, *List, *NonNull:
+	default:
+		// Types and directives have a name space each and readType looks
+		// at the types first. A type of the same name is not what is
+		// meant, the directive is, already defined or still to come.
+		name := du.Directive.Name()
+		if du.Directive = p.root.dirs.get(name); du.Directive == nil {
+			du.Directive = &Ref{Base: Base{N: name}}
+		}
+	}
 	if p.onDeck == '(' {
 		_, _ = p.readByte() // re-read opening (
 		// Read the arguments.
